@@ -49,6 +49,10 @@ def check(chk):
     from . import c01 as _c01
     from .c01 import _Relabel as _RL
     _c01._extended(_RL(chk, "WIRE.extended", "SPECIAL.embed.inner"))
+    # the coincidences "SparsePCA without penalty = EOF", "MCA(X, X) = EOF", "ExtendedEOF(embedding=1) = EOF" all compare
+    # against EOF's explained variance, which is the second moment s**2 / (N - 1) of the decomposed matrix whatever the
+    # centring option (SparsePCA stores D**2 / (m - 1)); shared with C01's normalisation rule
+    _c01._norm(_RL(chk, "NORM.", "SPECIAL.eof_norm."))
     pm = chk.pm
     _alpha(chk)
     _forward(chk)
